@@ -164,6 +164,14 @@ def variants(spec: list) -> list[tuple[str, list]]:
         out.append(("full_match", [*spec[:6], spec[6] + "~"]))
         out.append(("toggle_max_inclusive", [*spec[:5], not spec[5], spec[6]]))
         out.append(("toggle_min_inclusive", [*spec[:4], not spec[4], spec[5], spec[6]]))
+    # near-equal neighbours (not necessarily equal: whatever the answer, it must be symmetric and agree with the hash)
+    if k in {"Union", "List", "Set", "Tuple", "Literal"} and spec[1]:
+        out.append(("repeat_first", [k, [spec[1][0], *spec[1]]]))
+        dedup = [c for i, c in enumerate(spec[1]) if c not in spec[1][:i]]
+        if len(dedup) != len(spec[1]):
+            out.append(("dedup", [k, dedup]))
+    if k == "NamedSeq" and spec[3]:
+        out.append(("repeat_first", [k, spec[1], spec[2], [spec[3][0], *spec[3]]]))
     # one level of recursion: vary the first child
     if k in {"Union", "List", "Set", "Tuple"} and spec[1]:
         for name, v in variants(spec[1][0])[:2]:
